@@ -11,6 +11,9 @@ sys.path.insert(0, "/repo")
 sys.setrecursionlimit(10000)
 import warnings
 warnings.simplefilter("ignore", RuntimeWarning)
+# coroutines abandoned on purpose by the schedule explorer are finalised by the interpreter; the calculus
+# harness installs its own hook around each run (an unraisable error there is a finding)
+sys.unraisablehook = lambda u: None
 
 
 def main():
@@ -39,4 +42,7 @@ def main():
 
 
 if __name__ == "__main__":
-    sys.exit(main())
+    rc = main()
+    sys.stdout.flush()
+    sys.stderr.flush()
+    os._exit(rc or 0)        # skip interpreter-shutdown finalisation of deliberately abandoned coroutines
